@@ -60,6 +60,7 @@ type Exec struct {
 	usedContracts map[string]bool
 	aborted bool
 	trackCache map[*Contract]map[string]bool
+	errSiteCache map[*Contract]map[string]bool
 	curFr *Frame
 	wcount int
 	topFrame *frameDecl
@@ -232,6 +233,14 @@ func (ex *Exec) check(st *State, fr *Frame, class, label string, goal Term, prop
 	name := fmt.Sprintf("%s/%s#%s", funcKey(ex.top), class, label)
 	if fr != nil && fr.fn != ex.top && fr.depth > 0 {
 		name = fmt.Sprintf("%s/%s#%s@%s", funcKey(ex.top), class, label, shortFn(fr.fn))
+	}
+	if class == "safety" && ex.topC != nil && ex.topC.NoSafety {
+		// run-time safety of this function is declared out of scope (listed as
+		// an unchecked assumption in the evidence): the check is assumed
+		if goal.B != 1 {
+			st.assume(goal)
+		}
+		return
 	}
 	if !ex.active(props) {
 		// obligations of other properties are discharged in those properties'
@@ -488,16 +497,14 @@ func (ex *Exec) havocLoop(st *State, fr *Frame, head *ssa.BasicBlock) {
 			case *ssa.Defer:
 				cc = &x.Call
 			}
-			if cc != nil && fr.contract != nil && len(ex.tracked(fr.contract)) > 0 {
-				key, f := ex.calleeKey(st, cc)
-				if f == nil && !cc.IsInvoke() {
-					if rf := resolveClosureVar(cc.Value); rf != nil {
-						key = rf.String()
-					}
+			if cc != nil {
+				if hn := ex.siteCounterHeap(st, fr, ins, cc); hn != "" {
+					ms.write(hn, SortInt)
 				}
-				ord := ex.staticOrdinal(fr.fn, ins, key)
-				if name := ex.siteNameOf(fr, key, ord); name != "" {
-					ms.write(siteHeap(fr.fn.String(), name, ord), SortInt)
+			}
+			if cc != nil {
+				if hn := ex.errSite(st, fr, ins, cc); hn != "" {
+					ms.write(hn, SortIface)
 				}
 			}
 		}
@@ -1051,6 +1058,18 @@ func (ex *Exec) store(st *State, fr *Frame, p Val, v Val, pos token.Pos) {
 				st.setHeap(memName(es), Store(m, p.T, v.T))
 				return
 			}
+			// struct copy: struct values are object ids into the field heaps
+			if stt, ok := et.Underlying().(*types.Struct); ok && v.Kind == VTerm && v.T.Sort == SortInt && flatStruct(stt) {
+				for i := 0; i < stt.NumFields(); i++ {
+					f := stt.Field(i)
+					hn := fieldHeapName(et, f)
+					fs := sortOf(f.Type())
+					ex.writeCheck(st, fr, hn, p.T, TrueT, "struct copy", ex.pos(pos))
+					h := st.heap(hn, ArraySort(fs))
+					st.setHeap(hn, Store(h, p.T, Select(h, v.T)))
+				}
+				return
+			}
 		}
 		fallthrough
 	default:
@@ -1559,4 +1578,15 @@ func (ex *Exec) next(st *State, fr *Frame, x *ssa.Next) Val {
 	return Val{Kind: VTuple, Ty: x.Type(), Tuple: []Val{
 		TV(okT, tup.At(0).Type()), TV(pos, tup.At(1).Type()), TV(rune_, tup.At(2).Type()),
 	}}
+}
+
+// flatStruct: every field is a scalar, string, slice, pointer or interface.
+func flatStruct(s *types.Struct) bool {
+	for i := 0; i < s.NumFields(); i++ {
+		switch s.Field(i).Type().Underlying().(type) {
+		case *types.Array, *types.Struct:
+			return false
+		}
+	}
+	return true
 }
